@@ -606,6 +606,53 @@ def judge_filter_pair(world, op, out):
     return vs
 
 
+def _convert_values(value, col):
+    import pandas as pd
+    if isinstance(value, pd.DataFrame):
+        value = value[col]
+    if isinstance(value, pd.Series):
+        return [norm_cell(v) for v in value.tolist()]
+    return None
+
+
+def judge_convert_labels(world, op, out, results, rep):
+    """C10 for the converters: the converted values, position by position, do
+    not depend on the index labels of the table - the same call on the same
+    rows under the default 0..n-1 index must give the same values.  (What the
+    values are is C16's subject and is not judged here.)"""
+    from sim.world import norm_cell as _nc   # noqa: F401
+    t = world.tables[op['t']]
+    t2 = t.reset_index(drop=True)
+    w_tables = world.tables
+    try:
+        world.tables = dict(w_tables)
+        world.tables[op['t']] = t2
+        fn, kw = build_call(world, op, results)
+    finally:
+        world.tables = w_tables
+    try:
+        with Quiet():
+            v2 = fn(**kw)
+    except Exception as e:   # noqa
+        return [V('convert_labels', ['C10'],
+                  'C10 convert raises-under-default-index',
+                  'the same conversion on the table with a default index '
+                  'raised %s: %s' % (type(e).__name__, str(e)[:200]))]
+    rep['lib_calls'] += 1
+    rep['stats']['variant:convert_default_index'] += 1
+    a, b = _convert_values(out.value, op['col']), _convert_values(v2,
+                                                                 op['col'])
+    if a is None or b is None or a == b:
+        if a and any(x is None for x in a) and any(x is not None for x in a) \
+                and list(t.index) != list(range(len(t))):
+            rep['tags'].add('C10')
+        return []
+    return [V('convert_labels', ['C10'],
+              'C10 convert result-depends-on-index-labels',
+              'converted column %r: %r with its own index labels, %r '
+              'with the default index' % (op['col'], a[:8], b[:8]))]
+
+
 def judge_apply_matcher(world, op, out, cand_df):
     vs = []
     simf = op['sim']
@@ -1102,6 +1149,8 @@ def run_history_op(case, world, idx, op, results, rep, cpus):
                 rep['tags'].add('C04')
         elif kind == 'filter_pair':
             vs.extend(judge_filter_pair(world, op, out))
+        elif kind == 'convert' and op.get('numeric'):
+            vs.extend(judge_convert_labels(world, op, out, results, rep))
         elif kind == 'apply_matcher':
             vs.extend(judge_apply_matcher(world, op, out, cand_df))
             results[idx] = out.value
